@@ -119,7 +119,38 @@ class Knobs:
             return True
         return False
 
-    def trailing(self, where: str) -> t.List[Tlv]:
+    _ANY_TAGS = [(UNIVERSAL, 1), (UNIVERSAL, 2), (UNIVERSAL, 4), (UNIVERSAL, 10), (UNIVERSAL, 16), (UNIVERSAL, 17),
+                 (UNIVERSAL, 5), (UNIVERSAL, 12)] + [(CONTEXT, n) for n in range(12)] + [(APPLICATION, n) for n in (0, 1, 3, 4, 23, 24)]
+
+    def _trailing_any(self, where: str, avoid: t.Collection[t.Tuple[int, int]]) -> t.List[Tlv]:
+        """Trailing elements with any tag that no component of the enclosing type uses (``avoid`` lists the classes /
+        tags the enclosing type does use, None as number = the whole class): RFC 4511 section 4 - trailing SEQUENCE
+        components whose tags are not recognised are ignored."""
+        r = self.pick(5)
+        n = 0 if r < 3 else r - 2
+        out = []
+        for _ in range(n):
+            cls, num = self._ANY_TAGS[self.pick(len(self._ANY_TAGS))]
+            if (cls, num) in avoid or (cls, None) in avoid:
+                cls = PRIVATE
+            shape = self.pick(4)
+            if shape == 0:
+                node = ber.prim(cls, num, b"\xff")
+            elif shape == 1:
+                node = ber.prim(cls, num, bytes(self.pick(256) for _ in range(self.pick(5))))
+            elif shape == 2:
+                node = ber.cons(cls, num, [ber.octet_string(bytes(self.pick(256) for _ in range(self.pick(5))))])
+            else:
+                node = ber.prim(cls, num, b"")
+            node.lenform = self.lenform()
+            out.append(node)
+            self.applied["trailing-any"] += 1
+            self.trailing_at[where] += 1
+        return out
+
+    def trailing(self, where: str, avoid: t.Collection[t.Tuple[int, int]] = ()) -> t.List[Tlv]:
+        if "trailing-any" in self.kinds:
+            return self._trailing_any(where, avoid)
         if "trailing" not in self.kinds:
             return []
         r = self.pick(5)
@@ -196,7 +227,7 @@ def enc_filter(f: t.Any, k: Knobs) -> Tlv:
         return _p(ber.cons(CONTEXT, tag, [enc_filter(f[1], k)]), k)
     if kind in ("eq", "ge", "le", "approx"):
         kids = [_ostr(_u8(f[1]), k), _ostr(f[2], k)]
-        kids += k.trailing("AttributeValueAssertion")
+        kids += k.trailing("AttributeValueAssertion", [(UNIVERSAL, 4)])
         return _p(ber.cons(CONTEXT, tag, kids), k)
     if kind == "present":
         return _ctxp(tag, _u8(f[1]), k)
@@ -209,7 +240,7 @@ def enc_filter(f: t.Any, k: Knobs) -> Tlv:
         if f[4] is not None:
             subs.append(_ctxp(2, f[4], k))
         kids = [_ostr(_u8(f[1]), k), _p(ber.sequence(subs), k)]
-        kids += k.trailing("SubstringFilter")
+        kids += k.trailing("SubstringFilter", [(UNIVERSAL, 4), (UNIVERSAL, 16)])
         return _p(ber.cons(CONTEXT, tag, kids), k)
     if kind == "ext":
         _, rule, attr, value, dn = f
@@ -223,7 +254,7 @@ def enc_filter(f: t.Any, k: Knobs) -> Tlv:
             kids.append(_bool(True, k, CONTEXT, 4))
         elif k.explicit_default():
             kids.append(_bool(False, k, CONTEXT, 4))
-        kids += k.trailing("MatchingRuleAssertion")
+        kids += k.trailing("MatchingRuleAssertion", [(CONTEXT, None)])
         return _p(ber.cons(CONTEXT, tag, kids), k)
     raise ValueError(f"unknown filter kind {kind}")
 
@@ -235,7 +266,7 @@ def enc_control(c: t.Any, k: Knobs) -> Tlv:
     elif kind == "paged":
         _, critical, size, cookie = c
         ctype = OID_PAGED
-        inner = [_int(size, k), _ostr(cookie, k)] + k.trailing("pagedResultsValue")
+        inner = [_int(size, k), _ostr(cookie, k)] + k.trailing("pagedResultsValue", [(UNIVERSAL, 2), (UNIVERSAL, 4)])
         value = ber.write(_p(ber.sequence(inner), k))
     elif kind == "showDeleted":
         ctype, critical, value = OID_SHOW_DELETED, c[1], None
@@ -250,8 +281,11 @@ def enc_control(c: t.Any, k: Knobs) -> Tlv:
         kids.append(_bool(False, k))
     if value is not None:
         kids.append(_ostr(value, k))
-    kids += k.trailing("Control")
+    kids += k.trailing("Control", [(UNIVERSAL, 1), (UNIVERSAL, 4)])
     return _p(ber.sequence(kids), k)
+
+
+_RESULT_TAGS = [(UNIVERSAL, 10), (UNIVERSAL, 4), (CONTEXT, None)]
 
 
 def _enc_result(r: t.Any, k: Knobs) -> t.List[Tlv]:
@@ -274,15 +308,15 @@ def enc_op(m: t.Any, k: Knobs) -> Tlv:
             akids = [_ostr(_u8(auth[1]), k)]
             if auth[2] is not None:
                 akids.append(_ostr(auth[2], k))
-            akids += k.trailing("SaslCredentials")
+            akids += k.trailing("SaslCredentials", [(UNIVERSAL, 4)])
             a = _p(ber.cons(CONTEXT, 3, akids), k)
-        kids = [_int(m["version"], k), _ostr(_u8(m["name"]), k), a] + k.trailing("BindRequest")
+        kids = [_int(m["version"], k), _ostr(_u8(m["name"]), k), a] + k.trailing("BindRequest", [(UNIVERSAL, 2), (UNIVERSAL, 4), (CONTEXT, None)])
         return _p(ber.cons(APPLICATION, num, kids), k)
     if kind == "bindResponse":
         kids = _enc_result(m["result"], k)
         if m["sasl"] is not None:
             kids.append(_ctxp(7, m["sasl"], k))
-        kids += k.trailing("BindResponse")
+        kids += k.trailing("BindResponse", _RESULT_TAGS)
         return _p(ber.cons(APPLICATION, num, kids), k)
     if kind == "unbindRequest":
         return _p(ber.prim(APPLICATION, num, b""), k)
@@ -296,24 +330,24 @@ def enc_op(m: t.Any, k: Knobs) -> Tlv:
             _bool(m["typesOnly"], k),
             enc_filter(m["filter"], k),
             _p(ber.sequence([_ostr(_u8(a), k) for a in m["attributes"]]), k),
-        ] + k.trailing("SearchRequest")
+        ] + k.trailing("SearchRequest", [(UNIVERSAL, 4), (UNIVERSAL, 10), (UNIVERSAL, 2), (UNIVERSAL, 1), (UNIVERSAL, 16), (CONTEXT, None)])
         return _p(ber.cons(APPLICATION, num, kids), k)
     if kind == "searchResEntry":
         attrs = []
         for name, vals in m["attributes"]:
-            pa = [_ostr(_u8(name), k), _p(ber.set_of([_ostr(v, k) for v in vals]), k)] + k.trailing("PartialAttribute")
+            pa = [_ostr(_u8(name), k), _p(ber.set_of([_ostr(v, k) for v in vals]), k)] + k.trailing("PartialAttribute", [(UNIVERSAL, 4), (UNIVERSAL, 17)])
             attrs.append(_p(ber.sequence(pa), k))
-        kids = [_ostr(_u8(m["name"]), k), _p(ber.sequence(attrs), k)] + k.trailing("SearchResultEntry")
+        kids = [_ostr(_u8(m["name"]), k), _p(ber.sequence(attrs), k)] + k.trailing("SearchResultEntry", [(UNIVERSAL, 4), (UNIVERSAL, 16)])
         return _p(ber.cons(APPLICATION, num, kids), k)
     if kind == "searchResDone":
-        return _p(ber.cons(APPLICATION, num, _enc_result(m["result"], k) + k.trailing("SearchResultDone")), k)
+        return _p(ber.cons(APPLICATION, num, _enc_result(m["result"], k) + k.trailing("SearchResultDone", _RESULT_TAGS)), k)
     if kind == "searchResRef":
         return _p(ber.cons(APPLICATION, num, [_ostr(_u8(u), k) for u in m["uris"]]), k)
     if kind == "extendedReq":
         kids = [_ctxp(0, _u8(m["name"]), k)]
         if m["value"] is not None:
             kids.append(_ctxp(1, m["value"], k))
-        kids += k.trailing("ExtendedRequest")
+        kids += k.trailing("ExtendedRequest", [(CONTEXT, None)])
         return _p(ber.cons(APPLICATION, num, kids), k)
     if kind == "extendedResp":
         kids = _enc_result(m["result"], k)
@@ -321,7 +355,7 @@ def enc_op(m: t.Any, k: Knobs) -> Tlv:
             kids.append(_ctxp(10, _u8(m["name"]), k))
         if m["value"] is not None:
             kids.append(_ctxp(11, m["value"], k))
-        kids += k.trailing("ExtendedResponse")
+        kids += k.trailing("ExtendedResponse", _RESULT_TAGS)
         return _p(ber.cons(APPLICATION, num, kids), k)
     raise ValueError(kind)
 
@@ -331,7 +365,7 @@ def encode_tlv(m: t.Any, knobs: t.Optional[Knobs] = None) -> Tlv:
     kids = [_int(m["id"], k), enc_op(m, k)]
     if m["controls"]:
         kids.append(_p(ber.cons(CONTEXT, 0, [enc_control(c, k) for c in m["controls"]]), k))
-    kids += k.trailing("LDAPMessage")
+    kids += k.trailing("LDAPMessage", [(UNIVERSAL, 2), (APPLICATION, None), (CONTEXT, None)])
     return _p(ber.sequence(kids), k)
 
 
@@ -660,7 +694,7 @@ class _Dec:
 
     def message(self, data: bytes) -> t.Dict[str, t.Any]:
         try:
-            node, used = ber.read(data)
+            node, used = ber.read(data, max_depth=420)
         except ber.Incomplete:
             raise DecodeError("incomplete", "LDAPMessage")
         except ber.BerError as e:
